@@ -3,6 +3,7 @@
 set -e
 cd /verif
 fam=$1; props=$2
+git add -A; git commit -qm "wip before merging $fam" || true
 git merge fam-$fam -m "Merge family $fam ($props)" >/var/tmp/hgv-lead/merge-$fam.log 2>&1 || true
 if git status --short | grep -q "^UU\|^AA"; then
   for f in $(git status --short | grep "^UU\|^AA" | awk '{print $2}'); do
